@@ -10,7 +10,8 @@ Notation "a +++ b" := (String.append a b) (at level 60, right associativity).
 
 (* representation classes (x86-64 SysV / any LP64 C ABI) *)
 Inductive abi :=
-| AI (bytes : N) (signed : bool) | AF (bytes : N) | ABool | APtr | AUnit
+| AI (bytes : N) (signed : bool) | AIp (signed : bool)      (* fixed-width / pointer-sized integer *)
+| AF (bytes : N) | ABool | APtr | AUnit
 | ARec (fields : list abi) | AUni (alts : list abi).
 
 Definition round_up (x a : N) : N := ((x + a - 1) / a * a)%N.
@@ -18,7 +19,7 @@ Fixpoint size_align (a : abi) : N * N :=
   match a with
   | AI b _ | AF b => (b, b)
   | ABool => (1, 1)%N
-  | APtr => (8, 8)%N
+  | APtr | AIp _ => (8, 8)%N
   | AUnit => (0, 1)%N
   | ARec fs =>
       let '(sz, al) := fold_left (fun '(off, al) f => let '(s, a) := size_align f in (round_up off a + s, N.max al a))%N fs (0, 1)%N in
@@ -47,8 +48,13 @@ Fixpoint norm (a : abi) : abi :=
   match a with
   | ARec fs => ARec ((fix go (l : list abi) : list abi :=
                         match l with [] => [] | x :: r => if is_zst x then go r else norm x :: go r end) fs)
-  | AUni alts => AUni ((fix go (l : list abi) : list abi :=
-                          match l with [] => [] | x :: r => if is_zst x then go r else norm x :: go r end) alts)
+  | AUni alts =>
+      (* a union with a single (non-zero-sized) member is laid out as that member *)
+      match (fix go (l : list abi) : list abi :=
+               match l with [] => [] | x :: r => if is_zst x then go r else norm x :: go r end) alts with
+      | [one] => one
+      | l => AUni l
+      end
   | x => x
   end.
 
@@ -60,7 +66,8 @@ Definition rust_prim_abi (p : prim) : abi :=
   | PByte | PU8 => AI 1 false | PI8 => AI 1 true
   | PU16 => AI 2 false | PI16 => AI 2 true
   | PU32 => AI 4 false | PI32 => AI 4 true
-  | PU64 | PUsize => AI 8 false | PI64 | PIsize => AI 8 true
+  | PU64 => AI 8 false | PI64 => AI 8 true
+  | PUsize => AIp false | PIsize => AIp true
   | PF32 => AF 4 | PF64 => AF 8
   end.
 (* C side: <stdint.h> / <uchar.h> names on an LP64 target *)
@@ -70,7 +77,7 @@ Definition c_name_abi (s : string) : option abi :=
   if s =? "uint16_t" then Some (AI 2 false) else if s =? "int16_t" then Some (AI 2 true) else
   if s =? "uint32_t" then Some (AI 4 false) else if s =? "int32_t" then Some (AI 4 true) else
   if s =? "uint64_t" then Some (AI 8 false) else if s =? "int64_t" then Some (AI 8 true) else
-  if s =? "size_t" then Some (AI 8 false) else if s =? "intptr_t" then Some (AI 8 true) else
+  if s =? "size_t" then Some (AIp false) else if s =? "intptr_t" then Some (AIp true) else
   if s =? "float" then Some (AF 4) else if s =? "double" then Some (AF 8) else
   if s =? "char" then Some (AI 1 false) else if s =? "char16_t" then Some (AI 2 false) else None.
 
@@ -122,7 +129,7 @@ Definition c_result_members (r : rty) : list (string * string) :=
   end.
 
 (* ---- representation: what the macro compiles.  [env] gives user enums/structs their layout ---- *)
-Definition slice_abi : abi := ARec [APtr; AI 8 false].
+Definition slice_abi : abi := ARec [APtr; AIp false].
 Definition result_abi (ok err : abi) : abi := ARec [AUni [ok; err]; ABool].    (* DiplomatResult<T,E> *)
 Definition vty_abi (env : string -> abi) (v : vty) : abi :=
   match v with VPrim p => rust_prim_abi p | VEnum _ => AI 4 true | VStruct n => env n end.
@@ -174,6 +181,7 @@ Definition c_decl_abi (env : string -> abi) (p : pty) : option abi :=
 Fixpoint abi_eqb (a b : abi) {struct a} : bool :=
   match a, b with
   | AI x s, AI y t => N.eqb x y && Bool.eqb s t
+  | AIp s, AIp t => Bool.eqb s t
   | AF x, AF y => N.eqb x y
   | ABool, ABool | APtr, APtr | AUnit, AUnit => true
   | ARec l, ARec m | AUni l, AUni m =>
@@ -198,3 +206,42 @@ Definition agree_result_typedef (r : rty) (obs_members : list (string * string))
 (* struct layout: size, alignment, field offsets as both compilers report them *)
 Definition agree_layout (fields : list abi) (size align : N) (offs : list N) : bool :=
   let '(s, a) := size_align (ARec fields) in N.eqb s size && N.eqb a align && listN_eqb (offsets fields) offs.
+
+(* ---- C07: native declarations of the Dart (dart:ffi) and Kotlin (JNA) bindings ---- *)
+Definition dart_name_abi (s : string) : option abi :=
+  if s =? "ffi.Bool" then Some ABool else
+  if s =? "ffi.Uint8" then Some (AI 1 false) else if s =? "ffi.Int8" then Some (AI 1 true) else
+  if s =? "ffi.Uint16" then Some (AI 2 false) else if s =? "ffi.Int16" then Some (AI 2 true) else
+  if s =? "ffi.Uint32" then Some (AI 4 false) else if s =? "ffi.Int32" then Some (AI 4 true) else
+  if s =? "ffi.Uint64" then Some (AI 8 false) else if s =? "ffi.Int64" then Some (AI 8 true) else
+  if s =? "ffi.Size" then Some (AIp false) else if s =? "ffi.IntPtr" then Some (AIp true) else
+  if s =? "ffi.Float" then Some (AF 4) else if s =? "ffi.Double" then Some (AF 8) else None.
+(* JNA has no unsigned integers: FFIUintN wrappers are IntegerType(N); classes are compared up to signedness *)
+Definition kt_name_abi (s : string) : option abi :=
+  if s =? "Boolean" then Some ABool else
+  if s =? "Byte" then Some (AI 1 true) else if s =? "FFIUint8" then Some (AI 1 false) else
+  if s =? "Short" then Some (AI 2 true) else if s =? "FFIUint16" then Some (AI 2 false) else
+  if s =? "Int" then Some (AI 4 true) else if s =? "FFIUint32" then Some (AI 4 false) else
+  if s =? "Long" then Some (AI 8 true) else if s =? "FFIUint64" then Some (AI 8 false) else
+  if s =? "FFISizet" then Some (AIp false) else if s =? "FFIIsizet" then Some (AIp true) else
+  if s =? "Float" then Some (AF 4) else if s =? "Double" then Some (AF 8) else None.
+Fixpoint erase_sign (a : abi) : abi :=
+  match a with
+  | AI b _ => AI b false | AIp _ => AIp false
+  | ABool => AI 1 false                        (* struct mirrors store bool as Byte *)
+  | ARec l => ARec (map erase_sign l) | AUni l => AUni (map erase_sign l)
+  | x => x
+  end.
+(* a native signature / struct mirror as observed in the generated binding vs what the macro compiles *)
+Fixpoint all2abi (f : abi -> abi -> bool) (a b : list abi) : bool :=
+  match a, b with [], [] => true | x :: a', y :: b' => f x y && all2abi f a' b' | _, _ => false end.
+Definition agree_dart_sig (env : string -> abi) (self : option bool) (ps : list pty) (r : rty) (obs_ps : list abi) (obs_r : abi) : bool :=
+  all2abi (fun m o => abi_eqb (norm m) (norm o))
+          ((match self with Some mu => [APtr] | None => [] end) ++ map (ffi_param_abi env) ps) obs_ps &&
+  abi_eqb (norm (ffi_ret_abi env r)) (norm obs_r).
+Definition agree_kotlin_sig (env : string -> abi) (self : option bool) (ps : list pty) (r : rty) (obs_ps : list abi) (obs_r : abi) : bool :=
+  all2abi (fun m o => abi_eqb (erase_sign (norm m)) (erase_sign (norm o)))
+          ((match self with Some mu => [APtr] | None => [] end) ++ map (ffi_param_abi env) ps) obs_ps &&
+  abi_eqb (erase_sign (norm (ffi_ret_abi env r))) (erase_sign (norm obs_r)).
+Definition agree_mirror (erase : bool) (fields : list abi) (obs : list abi) : bool :=
+  all2abi (fun m o => if erase then abi_eqb (erase_sign (norm m)) (erase_sign (norm o)) else abi_eqb (norm m) (norm o)) fields obs.
